@@ -20,6 +20,10 @@ type lenCase struct {
 	Compress bool
 	Plain    bool   // the message belongs to the exactness sub-domain
 	Spell    uint64 `json:",omitempty"` // representation choices for the library value (0: canonical); never with Plain
+	// names (owners, question names, RDATA names) and whole RDATAs left at their zero value after the
+	// model message was turned into the library value (see empty_test.go)
+	Blank     []blankSlot `json:",omitempty"`
+	LowerOnly bool        `json:",omitempty"` // Plain, but the equality is not asserted (known finding empty-name-counted)
 }
 
 var handWritten = map[uint16]bool{wm.TNSEC: true, wm.TNSEC3: true, wm.TCSYNC: true, wm.TOPT: true, wm.TSVCB: true, wm.THTTPS: true,
@@ -47,6 +51,45 @@ func checkLen(c lenCase) error {
 	if c.Spell != 0 {
 		pbt.Class("alternative-representation")
 	}
+	exact := c.Plain && !c.LowerOnly
+	blanked := false
+	if len(c.Blank) > 0 {
+		names, zeroed := applyBlank(lib, &m, c.Blank)
+		blanked = names+zeroed > 0
+	}
+	if blanked {
+		// The model has no image of a name that is "not even the root". The emptied message holds
+		// fewer octets than the packable message it was made from, so it is within every limit; the
+		// question whether the packer takes "" at all is not C08's: a refusal that a roomy caller's
+		// buffer does not cure puts the case outside the domain, one that it cures was for lack of room.
+		modelLen := len(w)
+		packUnder := func(compress bool) ([]byte, error, bool) {
+			lib.Compress = compress
+			defer func() { lib.Compress = c.Compress }()
+			out, err := lib.Pack()
+			if err == nil {
+				return out, nil, false
+			}
+			if _, e2 := lib.PackBuffer(make([]byte, modelLen+64)); e2 == nil {
+				return nil, pbt.Errf("Pack ran out of room on a message with empty names (Len()=%d, compress=%v): %v - the same message packs into a caller's buffer of %d octets", lib.Len(), compress, err, modelLen+64), false
+			}
+			return nil, nil, true
+		}
+		out, verdict, refused := packUnder(false)
+		if verdict == nil && !refused && c.Compress {
+			w = out
+			_, verdict, refused = packUnder(true)
+		} else if verdict == nil && !refused {
+			w = out
+		}
+		if verdict != nil {
+			return verdict
+		}
+		if refused {
+			pbt.Note(nil, false, "empty-names-refused")
+			return nil
+		}
+	}
 	predicted := lib.Len()
 	p, err := lib.Pack()
 	if err != nil {
@@ -73,6 +116,15 @@ func checkLen(c lenCase) error {
 	if c.Plain {
 		classes = append(classes, "plain")
 	}
+	if blanked {
+		classes = append(classes, "empty-names")
+		for _, s := range c.Blank {
+			classes = append(classes, [...]string{"empty:rdata-zero-value", "empty:owner", "empty:rdata-name", "empty:question-name"}[blankClass(s)])
+		}
+		if exact {
+			classes = append(classes, "empty-names-exactness-asserted")
+		}
+	}
 	if len(w) > 16384 {
 		classes = append(classes, "beyond-16384")
 	}
@@ -84,17 +136,24 @@ func checkLen(c lenCase) error {
 	if predicted < len(p) {
 		return pbt.Errf("Len()=%d under-estimates Pack()=%d octets (compress=%v)", predicted, len(p), c.Compress)
 	}
-	if c.Plain && predicted != len(p) {
-		return pbt.Errf("escape-free message of the common types: Len()=%d but Pack() produced %d octets (compress=%v)", predicted, len(p), c.Compress)
+	if exact && predicted != len(p) {
+		return pbt.Errf("escape-free message of the common types: Len()=%d but Pack() produced %d octets (compress=%v)%s", predicted, len(p), c.Compress, blankNote(blanked))
 	}
 	if !c.Compress && !bytes.Equal(p, w) {
 		return nil // layout errors are C01's business
 	}
 	// single records
-	for _, r := range m.AllRecs() {
+	var libRecs []dns.RR
+	if blanked {
+		libRecs = append(append(append(libRecs, lib.Answer...), lib.Ns...), lib.Extra...)
+	}
+	for ri, r := range m.AllRecs() {
 		rr, err := wm.ToLib(r)
 		if err != nil {
 			continue
+		}
+		if blanked && ri < len(libRecs) {
+			rr = libRecs[ri] // the record as it stands in the message, with its emptied names
 		}
 		rw, err := wm.EncodeRR(r)
 		if err != nil {
@@ -107,8 +166,8 @@ func checkLen(c lenCase) error {
 		}
 		if l := dns.Len(rr); l < off {
 			return pbt.Errf("Len(rr)=%d under-estimates the %d packed octets of a %s record", l, off, typeName(r.Type))
-		} else if c.Plain && l != off {
-			return pbt.Errf("Len(rr)=%d but a plain %s record packs to %d octets", l, typeName(r.Type), off)
+		} else if exact && l != off {
+			return pbt.Errf("Len(rr)=%d but a plain %s record packs to %d octets%s", l, typeName(r.Type), off, blankNote(blanked))
 		}
 	}
 	// Text fields in a spelling the packer may or may not accept (base64 without its padding, hex in
@@ -174,8 +233,8 @@ func checkLen(c lenCase) error {
 	if ul < len(w) {
 		return pbt.Errf("uncompressed Len()=%d under-estimates the %d uncompressed octets", ul, len(w))
 	}
-	if c.Plain && ul != len(w) {
-		return pbt.Errf("plain message: uncompressed Len()=%d, uncompressed size %d", ul, len(w))
+	if exact && ul != len(w) {
+		return pbt.Errf("plain message: uncompressed Len()=%d, uncompressed size %d%s", ul, len(w), blankNote(blanked))
 	}
 	// Buffers of every interesting length (around the packed size, between the packed and the
 	// uncompressed size, around the uncompressed size) and with spare capacity behind their length
@@ -220,6 +279,25 @@ func checkLen(c lenCase) error {
 	return nil
 }
 
+func blankClass(s blankSlot) int {
+	switch {
+	case s.Field == -2:
+		return 0
+	case s.Sec == 0:
+		return 3
+	case s.Field == -1:
+		return 1
+	}
+	return 2
+}
+
+func blankNote(blanked bool) string {
+	if blanked {
+		return " (names or RDATA left at the zero value, see the Blank slots of the case)"
+	}
+	return ""
+}
+
 func genAny(t *rapid.T) lenCase {
 	mo := &gen.MsgOpts{Share: true, MaxQ: 3, MaxRecs: 5}
 	mo.Unknown = true
@@ -232,7 +310,7 @@ func genAny(t *rapid.T) lenCase {
 	if rapid.IntRange(0, 3).Draw(t, "respell") == 0 {
 		c.Spell = rapid.Uint64().Draw(t, "spell")
 	}
-	return c
+	return withBlank(t, c)
 }
 
 func genPlain(t *rapid.T) lenCase {
@@ -269,7 +347,7 @@ func genPlain(t *rapid.T) lenCase {
 			m.Ex = append(m.Ex, big...)
 		}
 	}
-	return lenCase{M: m, Compress: rapid.Bool().Draw(t, "compress"), Plain: true}
+	return withBlank(t, lenCase{M: m, Compress: rapid.Bool().Draw(t, "compress"), Plain: true})
 }
 
 // records whose own fields straddle the 16384-octet pointer limit: a filler puts the start of a
@@ -326,7 +404,7 @@ func genBoundary(t *rapid.T) lenCase {
 	}
 	_, plain := map[uint16]bool{wm.TNS: true, wm.TCNAME: true, wm.TSOA: true, wm.TMX: true, wm.TPTR: true, wm.TMINFO: true, wm.TSRV: true, wm.TDNAME: true,
 		wm.TRP: true, wm.TAFSDB: true, wm.TKX: true, wm.TNAPTR: true}[typ]
-	return lenCase{M: m, Compress: rapid.IntRange(0, 3).Draw(t, "compress") != 0, Plain: plain}
+	return withBlank(t, lenCase{M: m, Compress: rapid.IntRange(0, 3).Draw(t, "compress") != 0, Plain: plain})
 }
 
 // genSuffixDense: names made of very many one-octet labels - every label start is a possible
